@@ -71,6 +71,9 @@ def install_files(R):
                                                                                   faae(tmpn, T.VStr(e_)) == tmpn),
                                                     patterns=[faae(tmpn, T.VStr(e_))])))
 
+    R.axioms.append(("aae_keeps_name_with_extension", z3.ForAll([x_, e_], z3.Implies(z3.And(known, HasExtP(x_), T.is_VStr(x_)), faae(x_, T.VStr(e_)) == x_),
+                                                      patterns=[faae(x_, T.VStr(e_))])))
+
     def string_lemmas(eng, pid):
         from pyvc.state import VC
         he = lambda s_: z3.Or(*[z3.Contains(s_, z3.StringVal(x)) for x in EXTS.values()])
@@ -322,7 +325,7 @@ def install_harvester(R):
         return mk_bool(z3.ForAll([q], z3.Implies(z3.Not(istmp(q)), z3.If(q == pth, z3.Or(same, isnew), same))))
     S["DataOldOrNew"] = data_old_or_new
 
-    R.add(FARM + "Harvester.save_full_ds", cls="Harvester", result="none", props=["C05", "C14", "C10"],
+    R.add(FARM + "Harvester.save_full_ds", cls="Harvester", result="none", props=["C05", "C14"], prop_map={"crash.": ["C10"]},
           types={"new_full_ds": "V"},
           requires=[("named", "implies(self.data_name is not None, is_str_value(self.data_name) and KnownEngine(EffEngine(self, engine)) and "
                               "not IsTmp(HarvestPath(self, engine)))"),
